@@ -7,7 +7,7 @@ import ast
 from ..model import unparse, walk_no_nested
 from ..norm import Normalizer, calls_to, mentions_name, show, subterms
 from ..rules import calls_from, r_thread, return_terms
-from ..sdp import Skeleton, psd_ok
+from ..sdp import Skeleton, psd_ok, r_hermitian_vars
 from .disc_common import dispatcher, min_error_dual, min_error_primal, returns_optimum, solve_threading
 
 
@@ -17,6 +17,8 @@ def run(ctx):
     ctx.rule("R-ENUM", "p_i paired with rho_i and M_i of the same index over all states")
     ctx.rule("R-THREAD", "solver / **kwargs / probs / dim reach all four programs; dispatch by (strategy, primal_dual); default prior uniform")
     ctx.rule("R-GUARD", "has_same_dimension dominates")
+    ctx.rule("R-DTYPE", "variables paired with complex-capable data are Hermitian, not real symmetric")
+    ctx.rule("R-SHAPE", "variable shapes follow the number of states / the state dimension")
     ctx.rule("R-COV", "outer products conjugate the second factor; Gram matrix is Dagger(S) @ S")
     mod = "state_distinguishability"
     sd = m.func(f"{mod}.state_distinguishability")
@@ -64,6 +66,8 @@ def run(ctx):
         if dg:
             c = dg[0]
             z, pr = (c.lhs, c.rhs) if c.rel == ">=" else (c.rhs, c.lhs)
+            if z[0] == "real":  # the diagonal of a Hermitian variable is real: .real is the identity on it
+                z = z[1]
             i = c.loops[0][0][0] if c.loops else None
             Ni = Normalizer(m, ud, inline=True)
             it = Ni(c.loops[0][2].iter) if c.loops else None
@@ -72,6 +76,12 @@ def run(ctx):
         ctx.ob("R-SDP", ud, "Z_ii >= p_i for every state", okd, "diagonal dominates the prior, all i" if okd else "the diagonal constraints Z_ii >= p_i are missing, reversed or mis-indexed")
         Ni = Normalizer(m, ud, inline=True)
         ot = Ni(p.objective_node) if p.objective_node is not None else None
+        if ot is not None and ot[0] == "real":  # Tr(G Z) of Hermitian G, Z is real
+            ot = ot[1]
+        vz = next((x for x in sk2.vars if x.name == "lagrangian_variable_big_z"), None)
+        r_hermitian_vars(ctx, ud, sk2)
+        oksq = vz is not None and vz.shape == ("tuple", ("call", "builtins.len", (("n", "vectors"),), ()), ("call", "builtins.len", (("n", "vectors"),), ()))
+        ctx.ob("R-SHAPE", ud, "Z is n x n with n = len(vectors)", oksq, "(n, n)" if oksq else f"shape {show(vz.shape) if vz and vz.shape else '?'}", vz.node if vz else None)
         oko = ot is not None and ot[0] == "call" and ot[1] == "picos.trace" and ot[2][0][0] == "*" and any(str(x[1]).endswith("vectors_to_gram_matrix") for x in ot[2][0][1] if x[0] == "call")
         ctx.ob("R-SDP", ud, "objective == Tr(Gram Z)", bool(oko), "trace(gram * Z)" if oko else f"objective {show(ot)[:60] if ot else '?'}")
         d = sk2.dangling()
